@@ -355,3 +355,51 @@ Fixpoint map_free (e : expr) : bool :=
 (* an expression that is an operand itself, possibly behind unary pluses *)
 Fixpoint strip_pos (e : expr) : expr := match e with Pos e' => strip_pos e' | _ => e end.
 Definition is_leaf (e : expr) : bool := match e with Leaf _ => true | _ => false end.
+
+(* ------------------------------------------------------------------ padding several axes in one call *)
+(* np.pad with widths on two axes: every axis is looked up on its own; a cell is a padding
+   constant as soon as one of its coordinates falls into a constant margin *)
+Definition pad2_idx (md : pmode) (sh : list nat) (a ba aa b bb ab : nat) (i : idx) : option idx :=
+  match pad_src md (nth a sh 0) ba (nth a i 0), pad_src md (nth b sh 0) bb (nth b i 0) with
+  | Some ja, Some jb => Some (set_nth a ja (set_nth b jb i))
+  | _, _ => None
+  end.
+Definition pad2_shape (sh : list nat) (a ba aa b bb ab : nat) : list nat :=
+  set_nth a (nth a sh 0 + ba + aa) (set_nth b (nth b sh 0 + bb + ab) sh).
+Definition gather_pad2 {V} (md : pmode) (sh : list nat) (a ba aa b bb ab : nat) (fill : V)
+           (src : idx -> V) : idx -> V :=
+  fun i => match pad2_idx md sh a ba aa b bb ab i with Some j => src j | None => fill end.
+
+(* ------------------------------------------------------------------ mesh identity beyond the shape *)
+(* position of the result's first cell on the operands' common lattice, for the operations that keep
+   the lattice (ranges, blocks, padding, codecs); None = not tracked (plane, rotation, resampling) *)
+Definition map_origin (m : mapop) (o : list Z) : option (list Z) :=
+  match m with
+  | MRange ax lo hi => Some (set_nth ax (nth ax o 0 + Z.of_nat lo)%Z o)
+  | MBlock offs sh' => Some (map2 Z.add o (map Z.of_nat offs))
+  | MPad md ax before after fill => Some (set_nth ax (nth ax o 0 - Z.of_nat before)%Z o)
+  | MHdf5 | MVtk => Some o
+  | MPlane _ _ | MRot90 _ _ _ _ | MResample _ => None
+  end.
+
+Fixpoint eorigin (nd : nat) (e : expr) : option (list Z) :=
+  match e with
+  | Leaf _ => Some (repeat 0%Z nd)
+  | Pos e | Un _ e => eorigin nd e
+  | Bin _ e1 e2 =>
+      match eorigin nd e1, eorigin nd e2 with
+      | Some a, Some b => if zlist_eqb a b then Some a else None
+      | _, _ => None
+      end
+  | Map m e => match eorigin nd e with Some o => map_origin m o | None => None end
+  end.
+
+(* binary operation between two expressions over operands that live on ONE mesh: the code compares
+   the meshes (region and n), not only the shapes.  None = the model does not track these operands *)
+Definition veval_bin_geo (env : list marr) (nd : nat) (b : binop) (e1 e2 : expr) : option (res marr) :=
+  match veval env e1, veval env e2, eorigin nd e1, eorigin nd e2 with
+  | OK v1, OK v2, Some o1, Some o2 =>
+      if natlist_eqb (msh v1) (msh v2) && zlist_eqb o1 o2
+      then Some (bin_sem b v1 v2) else Some (Err ValueE)
+  | _, _, _, _ => None
+  end.
